@@ -224,12 +224,15 @@ func runC19(r *report.Run) {
 		}
 		return "", "", n, nil
 	}
-	hist, trans, st := asmHistorySearch(depth, variants, visit, r, 0)
+	// SetBase in the middle of a sequence is part of C19's alphabet (and of no other check's: the listings
+	// cannot follow a second base): the nil-target emitter must keep reporting the PC of the buffered one
+	midBase, _ := asmDynamicOp("SetBase($7e2000)")
+	hist, trans, st := asmHistorySearch(depth, variants, visit, r, 0, midBase)
 	capCases = st
 	if thorough {
 		// all ten constructor variants one level shallower (the deep pass above runs on one of them:
 		// depth 5 on all ten is 2.7*10^9 (history, capacity) cases, well over an hour on 16 cores)
-		h2, t2, s2 := asmHistorySearch(depth-1, all, visit, r, 0)
+		h2, t2, s2 := asmHistorySearch(depth-1, all, visit, r, 0, midBase)
 		hist, trans, capCases = hist+h2, trans+t2, capCases+s2
 	}
 	r.Set("states", capCases)
@@ -239,7 +242,7 @@ func runC19(r *report.Run) {
 	r.Set("distinct_nontrivial", capCases-hist)
 	r.Set("histories", hist)
 	r.Set("history_x_capacity_cases", capCases)
-	r.Set("bounds", map[string]interface{}{"history_depth": depth, "alphabet": len(asmAlphabet()), "constructor_variants": len(variants), "thorough_second_pass": "all 10 constructor variants at depth 4", "capacities": "every capacity from 0 to program size + 1, each as a whole array (len == cap), as a window of a larger canary-filled array (len < cap) and with the emitter under test being a Clone over the target, plus the nil-target (dry-run) emitter"})
+	r.Set("bounds", map[string]interface{}{"history_depth": depth, "alphabet": len(asmAlphabet()) + 1, "constructor_variants": len(variants), "thorough_second_pass": "all 10 constructor variants at depth 4", "capacities": "every capacity from 0 to program size + 1, each as a whole array (len == cap), as a window of a larger canary-filled array (len < cap) and with the emitter under test being a Clone over the target, plus the nil-target (dry-run) emitter"})
 	r.Set("rule", "every call sequence up to the depth x every buffer capacity from 0 to the program's size + 1 and the nil-target emitter: each call runs on a fresh real Emitter and on a twin real Emitter with ample room that receives exactly the accepted calls (the twin tells how many bytes a call needs; nothing is predicted from a model), the target buffer given once as a whole array and once as a window of a larger array whose bytes outside the window must stay untouched; a call that does not fit must panic and leave Bytes/Len/PC/Flags/labels unchanged, the history continues after a refusal, a call that fits must leave the emitter exactly like the twin, Finalize after the history must agree with the twin's, and the nil-target emitter must report the same PC, labels and flags after every call, also when the tail of the history (every split) goes through Clone(nil) and Append; non-trivial = capacity below the program size or nil target (at least one call differs from the roomy run)")
 	r.Sample(asmHistory{Variant: variants[0], Ops: []string{"LDA_abs($1234)", "JSL($123456)", "NOP"}, Capacity: 5})
 	r.Sample(asmHistory{Variant: variants[1], Ops: []string{"SEP(#$20)", "LDA_imm8_b($7F)", "EmitBytes(17)"}, Capacity: -1})
